@@ -19,11 +19,12 @@ translate/sched.py reads in src/siqs.rs and src/mpqs.rs on every run (Ymq/Gen/Sc
 * `source_shapes_ok`       the four shapes generated from the current source meet the side conditions (by
                            `decide` on the generated data: this is the obligation that breaks when a poll, a
                            flag read, the add or the completion decision is moved or deleted in the source);
-* `siqs_mt_*`, `mpqs_mt_*`, … the instances.
+* `siqs_mt_*`, `mpqs_mt_*`, … the instances; `source_ecm_shape_ok`, `ecm_abort_bounded`, `ecm_unit_length` for the
+  curve loop of ecm.rs (a unit = one curve: read `done`, poll, work, publish; no shared store).
 
 What this does not model: the cost of an action (the time between two polls is measured on the real code
-by the C05 check), `prepare_a` / `batch_inversion` (no protocol action), classical QS (fork-join of two
-block sieves, a different protocol: tied by latency measurement and history replay only) and ECM.
+by the C05 check), `prepare_a` / `batch_inversion` (no protocol action) and classical QS (fork-join of two
+block sieves, a different protocol: tied by latency measurement and history replay only).
 -/
 import Ymq.Lemmas.SchedShape
 import Ymq.Props.C04
@@ -123,6 +124,52 @@ theorem mpqs_st_abort_bounded (add : σ → ρ → σ) (enough : σ → Bool) (s
   have := abort_bounded_shape add enough mpqsSt (by decide) s0 [prog] B
     (by intro p hp u hu; simp at hp; subst hp; exact hB u hu) before after heff hab
   simpa using this
+
+/-- ECM: one curve polls the abort predicate (after reading `done`) before it does anything else; a curve adds
+nothing to a shared store and only ever publishes completion -/
+theorem source_ecm_shape_ok :
+    pollsPerUnit ecmCurve = true ∧ ecmCurve.pre.take 2 = [K.check, K.poll] ∧
+      ecmCurve.pre.contains K.add = false ∧ ecmCurve.body = [] ∧ ecmCurve.post = [] := by decide
+
+/-- ECM with a pool: each worker owns a list of curves (seeds); after the abort request at most two
+curves' worth of protocol actions per worker remain (the cost of a curve is measured, not modelled) -/
+theorem ecm_abort_bounded (add : σ → ρ → σ) (enough : σ → Bool) (s0 : σ)
+    (progs : List (List (List (List ρ)))) (B : Nat)
+    (hB : ∀ prog ∈ progs, ∀ u ∈ prog, (compileUnit ecmCurve u).length ≤ B)
+    (before after : List (Nat × Bool × Bool))
+    (heff : allEffective add enough (run add enough (initShape ecmCurve s0 progs) before) after)
+    (hab : allAbort after) : after.length ≤ progs.length * (2 * B) :=
+  abort_bounded_shape add enough ecmCurve (by decide) s0 progs B hB before after heff hab
+
+/-- a curve's program does not depend on relations: its length is the number of protocol actions read in
+the source, so `B` above can be taken to be that number -/
+theorem ecm_unit_length (u : List (List ρ)) : (compileUnit ecmCurve u).length = ecmCurve.pre.length := by
+  have hb : ecmCurve.body = [] := by decide
+  have hp : ecmCurve.post = [] := by decide
+  have hadd : ecmCurve.pre.contains K.add = false := by decide
+  unfold compileUnit
+  rw [hb, hp]
+  have h1 : ∀ (l : List (List ρ)), l.flatMap (expand ([] : List K)) = [] := by
+    intro l; induction l with
+    | nil => rfl
+    | cons x xs ih => simp [List.flatMap_cons, expand, ih]
+  have h2 : ∀ ks : List K, ks.contains K.add = false → (expand ks ([] : List ρ)).length = ks.length := by
+    intro ks
+    induction ks with
+    | nil => intro _; rfl
+    | cons k ks ih =>
+      intro h
+      have hk : k ≠ K.add := by
+        intro hk; subst hk; simp at h
+      have hks : ks.contains K.add = false := by
+        simp only [List.contains_cons, Bool.or_eq_false_iff] at h
+        exact h.2
+      have := ih hks
+      unfold expand at *
+      rw [List.flatMap_cons, List.length_append, this]
+      cases k <;> simp [expandK] at hk ⊢ <;> omega
+  rw [h1, show expand ([] : List K) ([] : List ρ) = [] from rfl]
+  simp [h2 _ hadd]
 
 /-! ### non-vacuity: two SIQS workers, two A values each, two polynomials per A; the abort answer turns
 `true` while worker 0 is inside its first A: it finishes that A (bounded by its unit), reaches the poll
